@@ -155,3 +155,35 @@ Theorem C16_issued_cross_use : forall cfg now k u cli eml ctx vctx, secrets_dist
   (verify_email_c cfg now vctx (Some (issue now k u cli eml ctx)) <> VInvalid <-> k = KEmail /\ ctx = vctx).
 Proof. exact issued_cross_use. Qed.
 Print Assumptions C16_issued_cross_use.
+
+(* ------------------------------------------------------------------ histories: one process, many presentations *)
+(* In every history (any tokens, any verifiers and wrappers, any clock readings, any length), a step
+   that authenticates a user other than guest is justified by the token presented in that step at the
+   clock reading of that step: HMAC-signed with the access secret, intact, its own exp still in the
+   future, sub = that user. Nothing seen earlier in the history can stand in for it. *)
+Theorem C16_history_sound : forall toks steps, history_sound toks steps.
+Proof. exact history_sound_all. Qed.
+Print Assumptions C16_history_sound.
+
+(* the answers after any prefix of whole steps are the answers without the prefix: the verifiers keep no state *)
+Theorem C16_history_prefix_irrelevant : forall toks n pre post, length pre = (3 * n)%nat ->
+  history toks (pre ++ post) = history toks pre ++ history toks post.
+Proof. exact history_prefix. Qed.
+Print Assumptions C16_history_prefix_irrelevant.
+
+(* time (and use) never adds validity: what is accepted at a later clock reading was accepted, with the same
+   claims, at every earlier one; a token rejected once stays rejected, a request that ran as guest keeps running as guest *)
+Theorem C16_accepted_later_accepted_earlier : forall now now' raw u e c m, now <= now' ->
+  verify_access now' true raw = VOk u e c m -> verify_access now true raw = VOk u e c m.
+Proof. exact access_accepted_earlier. Qed.
+Print Assumptions C16_accepted_later_accepted_earlier.
+
+Theorem C16_rejected_stays_rejected : forall now now' raw, now <= now' ->
+  verify_access now true raw = VInvalid -> verify_access now' true raw = VInvalid.
+Proof. exact access_rejected_later. Qed.
+Print Assumptions C16_rejected_stays_rejected.
+
+Theorem C16_guest_stays_guest : forall now now' raw, now <= now' ->
+  login_required now raw = GUEST -> login_required now' raw = GUEST.
+Proof. exact guest_stays_guest. Qed.
+Print Assumptions C16_guest_stays_guest.
